@@ -97,4 +97,5 @@ func genC15(c *Ctx) {
 	}
 	c15Conv(c)
 	c15RejectedFragments(c)
+	c10ReservedTagDraws(c) // every output of the random source when the own tag is drawn
 }
